@@ -132,7 +132,7 @@ def build_request(rp, req):
         return rp.userauth_request(user, 'none')
     if kind == 'pw':
         which = req[2]
-        pw = {'right': PASSWORDS[user], 'wrong': 'nope',
+        pw = {'right': PASSWORDS[user], 'wrong': 'nope', 'empty': '',
               'other': PASSWORDS['bob' if user == 'alice' else 'alice']}[which]
         return rp.password_request(user, pw)
     if kind == 'probe':
@@ -157,8 +157,18 @@ def build_request(rp, req):
         signed = R.string(sid) + R.byte(R.MSG_USERAUTH_REQUEST) + R.string(signed_user) + \
             R.string(service) + R.string('publickey') + body
         sig = ckey(signer).sign(signed)
-        return rp.userauth_request(user, 'publickey', body +
-                                   R.string(R.string('ssh-ed25519') + R.string(sig)))
+        sigblob = R.string(R.string('ssh-ed25519') + R.string(sig))
+        if variant == 'empty-sig':
+            sigblob = R.string(b'')
+        elif variant == 'empty-inner-sig':
+            sigblob = R.string(R.string('ssh-ed25519') + R.string(b''))
+        elif variant == 'zero-sig':
+            sigblob = R.string(R.string('ssh-ed25519') + R.string(bytes(64)))
+        elif variant == 'no-sig-field':
+            sigblob = b''
+        elif variant == 'sig-alg-other':
+            sigblob = R.string(R.string('ssh-rsa') + R.string(sig))
+        return rp.userauth_request(user, 'publickey', body + sigblob)
     if kind == 'trunc':
         full = rp.password_request(user, PASSWORDS[user])
         return full[:-1]
@@ -199,6 +209,9 @@ def alphabet(level):
             a.append(('pk', u, 'ka', 'wrong-service'))
             a.append(('pk', u, 'ka2', 'good'))
             a.append(('probe', u, 'kb'))
+        for var in ('empty-sig', 'empty-inner-sig', 'zero-sig', 'no-sig-field', 'sig-alg-other'):
+            a.append(('pk', 'alice', 'ka', var))
+        a.append(('pw', 'alice', 'empty'))
         a.append(('trunc', 'alice'))
         a.append(('trail', 'alice'))
     return a
